@@ -51,7 +51,7 @@ CHECKS = {
  "C02": chk("C02", "memsim",
    "deterministic simulation of the memory reclaimer: generated programs run with reclamation off (reference) and on under an adversarial reclaimer (poison/scribble on free, tiny pools forcing exhaustion and fallback); differential oracle",
    "Seeded search over typed programs biased to the shapes that store, return, alias and recycle strings/arrays/builders, times reclaimer knobs. Every program's printed values and ending must equal the reference configuration's; a death of the interpreter with reclamation on is a violation. Sampling, not proof.",
-   "The reference is the interpreter itself with frame = None, as the property defines it. Rejected programs, reference stack overflows/deaths and genuine allocation failures are discarded and counted.",
+   "The reference is the interpreter itself with frame = None, as the property defines it. Rejected programs, reference stack overflows/deaths and genuine allocation failures are discarded and counted, except in the calibrated array-return template, whose death with reclamation active is known finding K1 (known_findings.jsonl).",
    "DESIGN.md 3.6"),
  "C11": chk("C11", "vmsim",
    "deterministic simulation with fault injection: seeded operation histories against the real bump/scratch arenas over a simulated kernel VM (mmap/mprotect seam) that chooses where each reservation lands (seeded page offset from a 1 MiB boundary) and refuses chosen commits and reservations; shadow model of live ranges, canaries and pages checked after every operation",
